@@ -26,6 +26,9 @@ type job struct {
 	LocalMap bool              `json:"localmap"`
 	Run      bool              `json:"run"`
 	Timeout  float64           `json:"timeout"`
+	// Dir: build the project that the check has already laid out in this directory (GOPATH-mode projects below
+	// $GOPATH/src, projects in directories that are siblings of GOROOT); Files is then only informative.
+	Dir string `json:"dir"`
 }
 
 type result struct {
@@ -39,6 +42,7 @@ type result struct {
 	Map     string  `json:"map"`
 	Dir     string  `json:"dir"`
 	GOROOT  string  `json:"goroot"`
+	GOPATH  string  `json:"gopath"`
 	Stdout  string  `json:"stdout"`
 	Stderr  string  `json:"stderr"`
 	Exit    int     `json:"exit"`
@@ -91,12 +95,17 @@ func runJob(j job, scratch string) result {
 	t0 := time.Now()
 	res := result{ID: j.ID}
 	dir := filepath.Join(scratch, "p"+j.ID)
-	res.Dir = dir
-	if err := gojs.WriteModule(dir, "gvprog", j.Files); err != nil {
-		res.Err = err.Error()
-		return res
+	if j.Dir != "" {
+		dir = j.Dir
+	} else {
+		if err := gojs.WriteModule(dir, "gvprog", j.Files); err != nil {
+			res.Err = err.Error()
+			return res
+		}
+		defer os.RemoveAll(dir)
 	}
-	defer os.RemoveAll(dir)
+	res.Dir = dir
+	res.GOPATH = os.Getenv("GOPATH")
 	plain, _, _, err := compileOne(dir, j.Minify, false, j.LocalMap)
 	if err != nil {
 		res.Err = "compile(no map): " + err.Error()
@@ -117,7 +126,13 @@ func runJob(j job, scratch string) result {
 	}
 	res.Map = string(mp)
 	if j.Run {
-		jsPath := filepath.Join(dir, "out.js")
+		jsDir := dir
+		if j.Dir != "" {
+			jsDir = filepath.Join(scratch, "o"+j.ID)
+			os.MkdirAll(jsDir, 0o755)
+			defer os.RemoveAll(jsDir)
+		}
+		jsPath := filepath.Join(jsDir, "out.js")
 		full := append(append([]byte{}, mapped...), []byte("//# sourceMappingURL=out.js.map\n")...)
 		if err := os.WriteFile(jsPath, full, 0o644); err != nil {
 			res.Err = err.Error()
